@@ -10,6 +10,8 @@ from __future__ import annotations
 
 import ast
 
+from .helpers import Every  # noqa: E402
+
 from .. import terms as T
 from ..evalstatic import ClassRef, EnumMember, Obj, SEval, Unknown
 from ..paths import unversion
@@ -408,12 +410,14 @@ def _validity(chk, ctx) -> None:
         raise AnalysisError('Hand.__init__ vanished')
     gate = T.spec('self.lookup.has_entry(self.cards)', boolean=True)
     ok_raise = ok_pass = False
+    ok_pass = Every()
+    ok_raise = Every()
     for p in ctx.paths(init):
         conds = p.conds()
         if p.raised:
-            ok_raise = p.outcome[1] == 'ValueError' and T.mk_not(gate) in conds
+            ok_raise.see(p.outcome[1] == 'ValueError' and T.mk_not(gate) in conds)
         else:
-            ok_pass = gate in conds
+            ok_pass.see(gate in conds)
     chk.ob('C04.validity', 'Hand.__init__', ok_raise and ok_pass, init.loc,
            'a card set is rejected with ValueError exactly when the lookup has no entry for it')
     lk = prog.cls('Lookup')
